@@ -144,4 +144,8 @@ class Attached(Property):
         return modobj
 
     def copy(self):
-        return Attached(self.basecls, self.description, self.mandatory)
+        result = Attached(self.basecls, self.description, self.mandatory)
+        # keep the name: the copy replaces a bare value in a subclass, where
+        # __set_name__ is not called again
+        result.name = self.name
+        return result
